@@ -4,7 +4,8 @@ from store_common import replay_store, run_store, run_store_nat
 from seq_common import run_seq
 
 PROPERTY = 'C08'
-PROPS = ['SalsaVerif.Props.C08']
+GEN = ['LogicIntern']
+PROPS = ['SalsaVerif.Props.C08', 'SalsaVerif.Props.GenLogicIntern']
 EXPLANATION = ('Theorems about the interner model: equal fields interned within one revision give the same id and generation, unequal '
                'fields different ids, read-back returns the interned fields, a never-stale value keeps its identity; and linearizability of '
                'concurrent interning in an interleaving LTS where the per-shard step is atomic (the shard lock). Sequential behaviour tied '
